@@ -4,6 +4,7 @@ import RasnModel.Spec.Values
 import RasnModel.Link.Values
 import RasnModel.Gen.Values
 import RasnModel.Gen.Names
+import RasnModel.Ts.Strings
 /- line-protocol handler for C07 -/
 namespace Driver.C07
 open Sexp Lexer.Values
@@ -59,11 +60,11 @@ partial def read : Sexp → Option (AbsVal × Option AbsVal)
   | .list [.atom "bstr", d, .atom target] => (asText d).map fun d =>
       let spec := Spec.Values.bstringBits d.toList
       let model := bitStringValue 'B' d.toList
-      if target == "octet" then (.octets (groupOctets 64 spec), (bitsToOctets 64 model).map .octets) else (.bits spec, some (.bits model))
+      if target == "octet" then (.octets (Spec.Values.octetsOfBits 64 spec), (bitsToOctets 64 model).map .octets) else (.bits spec, some (.bits model))
   | .list [.atom "hstr", d, .atom target] => (asText d).map fun d =>
       let spec := Spec.Values.hstringBits d.toList
       let model := bitStringValue 'H' d.toList
-      if target == "octet" then (.octets (groupOctets 64 spec), (bitsToOctets 64 model).map .octets) else (.bits spec, some (.bits model))
+      if target == "octet" then (.octets (Spec.Values.octetsOfBits 64 spec), (bitsToOctets 64 model).map .octets) else (.bits spec, some (.bits model))
   | .list [.atom "namedbits", .list names, .list decl] => do
       let names ← names.mapM asText
       let decl ← decl.mapM fun d => match d with
@@ -262,6 +263,21 @@ def handleRender : List Sexp → String
       | some none => "model=norender"
       | none => "model=nolink"
     | _, _, _ => "bad-request"
+  | _ => "bad-request"
+
+/-- `tsstr <source string> <text behind "export const n = ">` ↦ `model=<agree|differ:..> spec=<ok|bad:..>`:
+    the model of `string_literal` is a prefix of the printed text, and the printed text reads as the source string -/
+def handleTsStr : List Sexp → String
+  | [src, obs] =>
+    match asText src, asText obs with
+    | some src, some obs =>
+      let lit := Ts.Strings.stringLiteral src.toList
+      let m := if lit.isPrefixOf obs.toList then "agree" else "differ:" ++ sanitize (String.ofList lit)
+      let sp := match Ts.Strings.readLiteral obs.toList with
+        | some (s, _) => if s == src.toList then "ok" else "bad:reads_as_" ++ hexOfBytes (String.ofList s).toUTF8.toList
+        | none => "bad:not_a_string_literal"
+      s!"model={m} spec={sp}"
+    | _, _ => "bad-request"
   | _ => "bad-request"
 
 end Driver.C07
